@@ -44,6 +44,10 @@
             &&& forall|key: Seq<char>| (#[trigger] spec_lookup(&self.globals, key)) is Some ==> (spec_lookup(&self.globals, key)->0).0 < self.decls@.len()
             &&& forall|i: int, key: Seq<char>| 0 <= i < self.decls@.len() && (#[trigger] spec_lookup(&self.decls@[i].children, key)) is Some ==> (spec_lookup(&self.decls@[i].children, key)->0).0 < self.decls@.len()
         }
+        /// every child was declared after its parent (so the declarations form a forest, children by growing index)
+        pub open spec fn forest(&self) -> bool {
+            forall|i: int, key: Seq<char>| 0 <= i < self.decls@.len() && (#[trigger] spec_lookup(&self.decls@[i].children, key)) is Some ==> (spec_lookup(&self.decls@[i].children, key)->0).0 > i
+        }
         pub open spec fn children_of(&self, parent: Option<util::ItemRef<T>>) -> &std::collections::HashMap<String, util::ItemRef<T>> {
             match parent { Some(p) => &self.decls@[p.0 as int].children, None => &self.globals }
         }
